@@ -20,6 +20,7 @@ inductive V where
   | none
   | bool (b : Bool)
   | int (z : Int)
+  | float (bits : Nat)              -- IEEE-754 binary64 bit pattern (what pickle writes: BINFLOAT)
   | str (cps : List Nat)            -- code points
   | bytes (bs : List Nat)
   | list (xs : List V)
@@ -59,6 +60,8 @@ mutual
     | .str a, .str b => cmpNats a b
     | .bytes a, .bytes b => cmpNats a b
     | .tuple xs, .tuple ys => pyCmpL xs ys
+    | .float _, _ => .unknown
+    | _, .float _ => .unknown
     | .fset _, .fset _ => .unknown
     | .obj _ _, .obj _ _ => .unknown
     | .list _, _ => .unknown
@@ -83,13 +86,14 @@ end
 def ltV (a b : V) : Bool := pyCmp a b == .lt
 
 inductive Kind where
-  | num | str | bytes | none | tuple | fset | obj | unhashable
+  | num | float | str | bytes | none | tuple | fset | obj | unhashable
   deriving DecidableEq, Repr
 
 def kind : V → Kind
   | .none => .none
   | .bool _ => .num
   | .int _ => .num
+  | .float _ => .float
   | .str _ => .str
   | .bytes _ => .bytes
   | .tuple _ => .tuple
@@ -134,10 +138,11 @@ the elements as a collection, never at their order.
   across kinds is unavoidable and raises `TypeError`.
 * numbers, strs, bytes: totally ordered.  tuples: totally ordered when every pair compares without error.
 * dataclass instances (no `order=True`): every comparison raises.
-* frozensets (subset order is partial), tuples with incomparable components: not modelled. -/
+* frozensets (subset order is partial), tuples with incomparable components, floats (numeric comparison of
+  binary64 values, also against ints): not modelled. -/
 def pySorted (xs : List V) : SortRes :=
   if xs.length ≤ 1 then .ok xs
-  else if xs.any (fun y => kind y == .unhashable) then .unspecified
+  else if xs.any (fun y => kind y == .unhashable || kind y == .float) then .unspecified
   else if mixedKinds xs || allKind .obj xs || allKind .none xs then .typeError
   else if allKind .num xs || allKind .str xs || allKind .bytes xs then .ok (isort ltV xs)
   else if allKind .tuple xs && allPairsOrdered xs then .ok (isort ltV xs)
@@ -199,7 +204,7 @@ def recordValue (H : Pre → Nat) (v : V) : HashRes := getHashData H v (some (se
 mutual
   /-- no `set`/`frozenset` node anywhere -/
   def SetFree : V → Prop
-    | .none | .bool _ | .int _ | .str _ | .bytes _ => True
+    | .none | .bool _ | .int _ | .float _ | .str _ | .bytes _ => True
     | .list xs => SetFrees xs
     | .tuple xs => SetFrees xs
     | .dict ks vs => SetFrees ks ∧ SetFrees vs
@@ -214,7 +219,7 @@ end
 mutual
   /-- every `set`/`frozenset` node has at most one element (then there is nothing to lay out differently) -/
   def Rigid : V → Prop
-    | .none | .bool _ | .int _ | .str _ | .bytes _ => True
+    | .none | .bool _ | .int _ | .float _ | .str _ | .bytes _ => True
     | .list xs => Rigids xs
     | .tuple xs => Rigids xs
     | .dict ks vs => Rigids ks ∧ Rigids vs
@@ -232,6 +237,7 @@ mutual
     | none : Sim .none .none
     | bool (b) : Sim (.bool b) (.bool b)
     | int (z) : Sim (.int z) (.int z)
+    | float (b) : Sim (.float b) (.float b)
     | str (s) : Sim (.str s) (.str s)
     | bytes (s) : Sim (.bytes s) (.bytes s)
     | list {xs ys} : Sims xs ys → Sim (.list xs) (.list ys)
